@@ -21,13 +21,12 @@ Section FanoutProofs.
 
   Record FInv (s : fstate) : Prop := mkFInv {
     fi_offer : match fpc s with PWrite _ rest once => offer_valid rest once = true | _ => True end;
-    fi_eof : feof s = true -> fup s = [];
     fi_done1 : fdone1 s = true -> fpc s = PClosed;
     fi_done2 : fdone2 s = true -> fpc s = PClosed;
     fi_marker : fmarker s = true -> fdone1 s = true /\ fdone2 s = true /\ fpc s = PClosed;
     fi_acc : accounting s }.
 
-  Lemma finv_init chunks : concat chunks = data -> FInv (init_fanout chunks).
+  Lemma finv_init chunks eofdata : concat chunks = data -> FInv (init_fanout_eof chunks eofdata).
   Proof.
     intro H. split; cbn; try discriminate; try exact I.
     repeat split; try reflexivity. assumption.
@@ -36,7 +35,7 @@ Section FanoutProofs.
 
   Lemma finv_step s th : FInv s -> FInv (fstep s th).
   Proof.
-    intro HI. pose proof HI as [Hoff Heof Hd1 Hd2 Hmk Hacc]. unfold accounting in Hacc.
+    intro HI. pose proof HI as [Hoff Hd1 Hd2 Hmk Hacc]. unfold accounting in Hacc.
     destruct th as [|buf|buf|]; unfold fstep.
     - (* producer *)
       destruct (fpc s) as [|second rest once|] eqn:Epc; [|exact HI|exact HI].
@@ -51,7 +50,6 @@ Section FanoutProofs.
         * constructor; unfold accounting; cbn; rewrite ?N1, ?N2, ?N3; try exact I; try reflexivity; try discriminate.
           rewrite !app_nil_r. repeat split; assumption.
       + constructor; unfold accounting; cbn; rewrite ?N1, ?N2, ?N3; try exact I; try reflexivity; try discriminate.
-        * intro H. apply Heof in H. discriminate H.
         * cbn [concat] in A3. rewrite A1. repeat split; try reflexivity; assumption.
     - (* consumer 1 *)
       destruct (fdone1 s) eqn:E1; [exact HI|].
@@ -102,7 +100,7 @@ Section FanoutProofs.
     (fdone2 s = true -> concat (fp2 s) = data) /\
     (fmarker s = true -> fdone1 s = true /\ fdone2 s = true).
   Proof.
-    intros [Hoff Heof Hd1 Hd2 Hmk Hacc]. unfold accounting in Hacc. repeat split.
+    intros [Hoff Hd1 Hd2 Hmk Hacc]. unfold accounting in Hacc. repeat split.
     - intro H. apply Hd1 in H. rewrite H in Hacc. apply Hacc.
     - intro H. apply Hd2 in H. rewrite H in Hacc. apply Hacc.
     - apply Hmk. assumption.
@@ -113,12 +111,11 @@ Section FanoutProofs.
   Lemma fanout_progress s :
     FInv s -> fmarker s = false -> exists th, fmeasure (fstep s th) < fmeasure s.
   Proof.
-    intros [Hoff Heof Hd1 Hd2 Hmk Hacc] Hm. destruct (fpc s) as [|second rest once|] eqn:Epc.
+    intros [Hoff Hd1 Hd2 Hmk Hacc] Hm. destruct (fpc s) as [|second rest once|] eqn:Epc.
     - exists TProducer. unfold fstep, fmeasure. rewrite Epc.
       destruct (fup s) as [|c r] eqn:Eup.
       + destruct (feof s) eqn:Ee; cbn; rewrite ?Hm; cbn; lia.
-      + destruct (feof s) eqn:Ee; [specialize (Heof eq_refl); discriminate Heof|].
-        cbn. unfold chunk_cost. lia.
+      + destruct (feof s) eqn:Ee; cbn; unfold chunk_cost; lia.
     - destruct second.
       + assert (E2 : fdone2 s = false) by (destruct (fdone2 s) eqn:E; [discriminate (Hd2 eq_refl)|reflexivity]).
         exists (TCons2 1). unfold fstep, fmeasure. rewrite E2, Epc, Hoff.
@@ -155,14 +152,14 @@ End FanoutProofs.
 
 (** * The statements of Properties/C15.v *)
 Theorem fanout_pieces_lemma :
-  forall (chunks : list (list N)) (sched : list fthread),
-    let s := frun sched (init_fanout chunks) in
+  forall (chunks : list (list N)) (eofdata : bool) (sched : list fthread),
+    let s := frun sched (init_fanout_eof chunks eofdata) in
     (fdone1 s = true -> concat (fp1 s) = concat chunks) /\
     (fdone2 s = true -> concat (fp2 s) = concat chunks) /\
     (fmarker s = true -> fdone1 s = true /\ fdone2 s = true) /\
     (exists more, fmarker (frun more s) = true).
 Proof.
-  intros chunks sched s.
+  intros chunks eofdata sched s.
   assert (HI : FInv (concat chunks) s) by (apply finv_run; apply finv_init; reflexivity).
   destruct (finv_results (concat chunks) s HI) as [H1 [H2 H3]].
   repeat split; try assumption; try (apply H3; assumption).
@@ -175,13 +172,13 @@ Theorem fanout_deterministic_lemma :
          (out2 : list (list N) -> O2) (spec2 : list N -> O2),
     (forall pieces, out1 pieces = spec1 (concat pieces)) ->
     (forall pieces, out2 pieces = spec2 (concat pieces)) ->
-    forall (chunks : list (list N)) (sched : list fthread),
-      let s := frun sched (init_fanout chunks) in
+    forall (chunks : list (list N)) (eofdata : bool) (sched : list fthread),
+      let s := frun sched (init_fanout_eof chunks eofdata) in
       (fmarker s = true -> out1 (fp1 s) = spec1 (concat chunks) /\ out2 (fp2 s) = spec2 (concat chunks)) /\
       (exists more, fmarker (frun more s) = true).
 Proof.
-  intros O1 O2 out1 spec1 out2 spec2 Hc1 Hc2 chunks sched s.
-  destruct (fanout_pieces_lemma chunks sched) as [H1 [H2 [H3 H4]]]. fold s in H1, H2, H3, H4.
+  intros O1 O2 out1 spec1 out2 spec2 Hc1 Hc2 chunks eofdata sched s.
+  destruct (fanout_pieces_lemma chunks eofdata sched) as [H1 [H2 [H3 H4]]]. fold s in H1, H2, H3, H4.
   split; [|assumption]. intro Hm. destruct (H3 Hm) as [D1 D2].
   rewrite Hc1, Hc2, (H1 D1), (H2 D2). split; reflexivity.
 Qed.
@@ -192,16 +189,16 @@ Theorem fanout_chunking_lemma :
          (out2 : list (list N) -> O2) (spec2 : list N -> O2),
     (forall pieces, out1 pieces = spec1 (concat pieces)) ->
     (forall pieces, out2 pieces = spec2 (concat pieces)) ->
-    forall (chunksA chunksB : list (list N)) (schedA schedB : list fthread),
+    forall (chunksA chunksB : list (list N)) (eofA eofB : bool) (schedA schedB : list fthread),
       concat chunksA = concat chunksB ->
-      let sA := frun schedA (init_fanout chunksA) in
-      let sB := frun schedB (init_fanout chunksB) in
+      let sA := frun schedA (init_fanout_eof chunksA eofA) in
+      let sB := frun schedB (init_fanout_eof chunksB eofB) in
       fmarker sA = true -> fmarker sB = true ->
       out1 (fp1 sA) = out1 (fp1 sB) /\ out2 (fp2 sA) = out2 (fp2 sB).
 Proof.
-  intros O1 O2 out1 spec1 out2 spec2 Hc1 Hc2 chunksA chunksB schedA schedB E sA sB HA HB.
-  destruct (fanout_deterministic_lemma O1 O2 out1 spec1 out2 spec2 Hc1 Hc2 chunksA schedA) as [XA _].
-  destruct (fanout_deterministic_lemma O1 O2 out1 spec1 out2 spec2 Hc1 Hc2 chunksB schedB) as [XB _].
+  intros O1 O2 out1 spec1 out2 spec2 Hc1 Hc2 chunksA chunksB eofA eofB schedA schedB E sA sB HA HB.
+  destruct (fanout_deterministic_lemma O1 O2 out1 spec1 out2 spec2 Hc1 Hc2 chunksA eofA schedA) as [XA _].
+  destruct (fanout_deterministic_lemma O1 O2 out1 spec1 out2 spec2 Hc1 Hc2 chunksB eofB schedB) as [XB _].
   destruct (XA HA) as [A1 A2]. destruct (XB HB) as [B1 B2]. fold sA in A1, A2. fold sB in B1, B2.
   rewrite A1, A2, B1, B2, E. split; reflexivity.
 Qed.
@@ -210,4 +207,12 @@ Example fanout_example :
   let s := frun [TProducer; TCons1 2; TCons1 2; TCons2 5; TProducer; TCons1 1; TCons2 1; TProducer; TCons1 4; TCons2 4; TProducer; TCons2 1; TCons1 1; TGroup]
                 (init_fanout [[1;2;3]; []]%N) in
   fmarker s = true /\ fp1 s = [[1;2]; [3]; []; []]%N /\ fp2 s = [[1;2;3]; []; []]%N.
+Proof. vm_compute. repeat split; reflexivity. Qed.
+
+(** the same bytes from a source that hands out its last chunk together with io.EOF: no
+    zero-length Write at the end, one piece less for each consumer *)
+Example fanout_example_eofdata :
+  let s := frun [TProducer; TCons1 2; TCons1 2; TCons2 5; TProducer; TCons1 1; TCons2 1; TGroup]
+                (init_fanout_eof [[1;2;3]]%N true) in
+  fmarker s = true /\ fp1 s = [[1;2]; [3]]%N /\ fp2 s = [[1;2;3]]%N.
 Proof. vm_compute. repeat split; reflexivity. Qed.
